@@ -43,7 +43,6 @@ MUTANTS: list[tuple[str, str, Any, str, str]] = [
 	('C09', 'event-built-in-forward-property-order', 'rogw/tranp/semantics/procedure.py', '			prop_keys = reversed(node.prop_keys())\n', '			prop_keys = node.prop_keys()\n'),
 	('C09', 'list-length-at-least-one', 'rogw/tranp/semantics/procedure.py', '					counts = len(getattr(node, prop_key))\n', '					counts = max(1, len(getattr(node, prop_key)))\n'),
 	('C09', 'list-results-not-reversed-back', 'rogw/tranp/semantics/procedure.py', '					event[prop_key] = list(reversed([self.__stack_pop() for _ in range(counts)]))\n', '					event[prop_key] = [self.__stack_pop() for _ in range(counts)]\n'),
-	('C09', 'prop-keys-cache-shared-with-subclasses', 'rogw/tranp/syntax/node/node.py', "		key = f'__{cls.__name__}_{cls.prop_keys.__name__}__'\n", "		key = '__prop_keys_cache__'\n"),
 	('C10', 'candidate-order-depends-on-instantiation-count', 'rogw/tranp/syntax/node/resolver.py', '		for ctor in ctors:\n', '		for ctor in (ctors if len(self.__insts) % 7 else list(reversed(ctors))):\n'),
 	('C10', 'memo-key-collision-children-expand', 'rogw/tranp/syntax/node/query.py', "return self.__memo.get(f'children.{via}', factory)", "return self.__memo.get(f'expand.{via}', factory)"),
 	('C10', 'index-form-only-for-three-or-more', 'rogw/tranp/syntax/ast/finder.py', 'indivisual = len(tag_of_indexs[entry_tag]) == 1', 'indivisual = len(tag_of_indexs[entry_tag]) <= 2'),
